@@ -20,7 +20,8 @@ def extents(stmt, base):
         pos += len(t.value)
     lo_of = {id(t): (a, b) for t, a, b in leafinfo}
     sig = {id(t): not (t.ttype in T.Whitespace or t.ttype in T.Comment) for t, _, _ in leafinfo}
-    semi = {id(t): (t.ttype is T.Punctuation and t.value == ';') for t, _, _ in leafinfo}
+    semi = {id(t): ((t.ttype is T.Punctuation and t.value == ';') or (t.ttype is T.Keyword and t.value.split()[0].upper() == 'GO'))
+            for t, _, _ in leafinfo}
     # groups: compute from their leaves (iterative per group; trees here are small)
     for g, depth, par in project.groups(stmt):
         ls = project.leaves(g)
@@ -97,6 +98,8 @@ def shape(prog, a, b):
         f.add('op')
     if 'dcolon' in top:
         f.add('cast')
+    if 'sign' in top:
+        f.add('sign')       # a signed operand is not grouped with its sign
     if has_alias:
         f.add('alias')
     return '+'.join(sorted(f)) if f else 'plain'
